@@ -807,6 +807,10 @@ static sexp make_opcode_procedure (sexp ctx, sexp op, sexp_uint_t i, sexp_sint_t
   params = make_param_list(ctx, j);
   lambda = sexp_make_lambda(ctx, params);
   ctx2 = sexp_make_child_context(ctx, lambda);
+  if (sexp_exceptionp(ctx2)) {
+    sexp_gc_release6(ctx);
+    return ctx2;
+  }
   env = sexp_extend_env(ctx2, sexp_context_env(ctx), params, lambda);
   if (sexp_exceptionp(env)) {
     res = env;
